@@ -1,6 +1,7 @@
 import OutlineModel.Proofs.UDP
 import OutlineModel.Gen.Consts
 import OutlineModel.Gen.Ciphers
+import OutlineModel.Gen.Wiring
 /-
 C03 — Every forwarded UDP datagram is authenticated, attributed and intact.
 
@@ -150,6 +151,13 @@ theorem truncation_never_relayed (a : Assoc) (srcIP : List UInt8) (srcPort : Nat
   have := htab c hcm
   have := encodeIP_length srcIP srcPort hsrc
   exact relayReply_truncated _ _ a srcIP srcPort body (by omega) (by omega) hfull (by omega)
+
+/-- **wiring**: the trial decryption of a first datagram writes into a buffer that is a local of the
+    Handle call and distinct from the received datagram (a failed trial under one key cannot destroy
+    the input for the next key, and listeners do not share it); the datagram is written to the
+    validated address (generated facts). -/
+theorem wiring : Gen.Wiring.udpTrialBuffersLocalAndDistinct = true ∧ Gen.Wiring.udpWritesToValidatedAddress = true ∧
+    Gen.Wiring.udpValidatesBothBranches = true := by decide
 
 /- non-vacuity -/
 example : relayReply Gen.serverUDPBufferSize Gen.maxAddrLen
